@@ -38,6 +38,8 @@ import (
 
 var modPath = "github.com/openacid/low"
 
+var noLoops = false
+
 // ------------------------------------------------------------------------------------------ configuration
 
 // packages loaded (module-internal dependencies and github.com/openacid/must are followed)
@@ -54,8 +56,10 @@ var targets = []string{
 	"bitmap.TailBitmap.Get", "bitmap.TailBitmap.Get1", "bitword.bitWord.Get",
 	"iohelper.NewSectionWriter", "iohelper.AtToWriter",
 	"iohelper.SectionWriter.Seek", "iohelper.SectionWriter.Size",
-	// expected to be unsupported (loops): they document the bail-out
-	"bmtree.shiftMulti", "bmtree.IndexToPath", "bitmap.IndexRank64",
+	// loops: recursion on explicit fuel
+	"bmtree.shiftMulti", "bmtree.IndexToPath", "bitmap.NextOne", "bitmap.PrevOne",
+	// expected to be unsupported (stores into a fresh slice): documents the bail-out
+	"bitmap.IndexRank64",
 }
 
 // callees that are NOT translated but mapped to a model function (their own tie to the code is the
@@ -83,6 +87,11 @@ var mathBits = map[string]string{
 var tables = map[string]string{
 	"bitmap.Mask": "Mask", "bitmap.RMask": "RMask", "bitmap.MaskUpto": "MaskUpto", "bitmap.RMaskUpto": "RMaskUpto",
 	"bitmap.Bit": "Bit", "bitmap.RBit": "RBit",
+}
+
+// package-level slice variables (read-only tables) -> the model's constants
+var sliceTables = map[string]string{
+	"bmtree.idxToPath": "BmtreeIndexToPath.idxToPath",
 }
 
 // package-level error values -> the model's error codes
@@ -128,7 +137,7 @@ var records = map[string]*recordCfg{
 
 const preamble = `From Coq Require Import ZArith List Bool String.
 From Low Require Import Lib.MachInt Lib.Bits Lib.BitSeq Lib.TransLib.
-From Low Require Model.BmtreeIndex Model.SectionWriter Model.TailBitmap Model.Bitword.
+From Low Require Model.BmtreeIndex Model.BmtreeIndexToPath Model.SectionWriter Model.TailBitmap Model.Bitword.
 Import ListNotations.
 Open Scope Z_scope.
 `
@@ -141,7 +150,7 @@ func init() {
 	 shr8 shr16 shr32 shr64 sar8 sar16 sar32 sar64 not8 not16 not32 not64 popcount lz32 lz64 tz tz64 tz8 bitlen Mask RMask
 	 MaskUpto RMaskUpto Bit RBit nthZ zlen tblZ fst snd negb Some None true false Z list bool option tt unit eqb
 	 if then else let in fun match with end forall exists fix cofix return as at using where Type Prop Set by do of struct
-	 SProp for mod land lor lxor`) {
+	 SProp for mod land lor lxor fuel nat O S`) {
 		reserved[s] = true
 	}
 }
@@ -189,6 +198,8 @@ type nKDef struct {
 	params []string
 	body   node
 	rest   node
+	fix    string // non-empty: a loop header; the name of the fuel binder ("fuel5"), the body sees "f5"
+	rt     string // the result type (loops only)
 }
 type nKCall struct {
 	name string
@@ -204,7 +215,7 @@ func isPartial(n node) bool {
 	case *nIf:
 		return isPartial(n.a) || isPartial(n.b)
 	case *nKDef:
-		return isPartial(n.body) || isPartial(n.rest)
+		return n.fix != "" || isPartial(n.body) || isPartial(n.rest)
 	}
 	return false
 }
@@ -245,6 +256,15 @@ func pr(b *strings.Builder, n node, ind string, partial bool) {
 	case *nFail:
 		fmt.Fprintf(b, "%sNone%s\n", ind, cmt(n.cmt))
 	case *nKDef:
+		if n.fix != "" {
+			// a loop: recursion on explicit fuel, None when it runs out
+			fmt.Fprintf(b, "%slet fix %s (%s : nat) %s {struct %s} : %s :=\n", ind, n.name, n.fix, strings.Join(n.params, " "), n.fix, n.rt)
+			fmt.Fprintf(b, "%s  match %s with O => None | S f%s =>\n", ind, n.fix, strings.TrimPrefix(n.fix, "fuel"))
+			pr(b, n.body, ind+"  ", partial)
+			fmt.Fprintf(b, "%s  end in\n", ind)
+			pr(b, n.rest, ind, partial)
+			return
+		}
 		if len(n.params) == 0 {
 			fmt.Fprintf(b, "%slet %s := (\n", ind, n.name)
 		} else {
@@ -353,6 +373,9 @@ func coqType(t types.Type) string {
 		if isInt(u.Elem()) {
 			return "list Z"
 		}
+		if _, ok := u.Elem().Underlying().(*types.Slice); ok {
+			return "list (" + coqType(u.Elem()) + ")"
+		}
 	case *types.Basic:
 		if u.Kind() == types.String {
 			return "list Z"
@@ -400,6 +423,7 @@ type result struct {
 	Hash    string `json:"hash"`
 	Partial bool   `json:"partial"`
 	Mutates bool   `json:"mutates"`
+	Fuel    bool   `json:"fuel"` // the definition takes the loop fuel as its first argument
 	Calls   []string `json:"calls,omitempty"`
 }
 
@@ -418,6 +442,9 @@ type ftr struct {
 	cell    map[*ssa.Alloc]string // local cells -> the expression currently stored
 	fresh   map[ssa.Value]*freshRec // records allocated by this (single-block) function
 	owner   map[ssa.Value]ssa.Value // FieldAddr -> the fresh allocation it points into (absent: the receiver)
+	header  map[*ssa.BasicBlock]bool // loop headers
+	fuel    bool                     // the function has a loop or calls a function that has one
+	rt      string                   // Coq type of the (option) result, for the loop fixpoints
 	rec     *recordCfg
 	recv    ssa.Value
 	mutates bool
@@ -537,6 +564,10 @@ func (t *ftr) instr(in ssa.Instruction, cur *string) wrapper {
 					t.name[in] = e
 					return id
 				}
+				if e, ok := sliceTables[g]; ok {
+					coqType(in.Type()) // must be a slice (of slices) of integers
+					return let(in, e)
+				}
 				// a pointer read from a package variable: only allowed as the receiver of a no-op call
 				t.name[in] = "tt"
 				t.ignored[in] = true
@@ -591,7 +622,7 @@ func (t *ftr) instr(in ssa.Instruction, cur *string) wrapper {
 		switch xt := in.X.Type().Underlying().(type) {
 		case *types.Slice:
 			if !isInt(xt.Elem()) {
-				bail("slice element type %s", xt.Elem())
+				coqType(xt.Elem()) // a slice of slices of integers, or refuse
 			}
 			return bind(in, fmt.Sprintf("nthZ %s %s", t.val(in.X), t.val(in.Index)))
 		case *types.Pointer:
@@ -931,10 +962,15 @@ func (t *ftr) call(in *ssa.Call, let, bind func(ssa.Value, string) wrapper) wrap
 			bail("call of the mutating method %s", sn)
 		}
 		t.calls[sn] = true
-		if r.Partial {
-			return bind(in, r.Coq+" "+argv())
+		f := r.Coq
+		if r.Fuel {
+			t.fuel = true
+			f += " fuel"
 		}
-		return let(in, r.Coq+" "+argv())
+		if r.Partial {
+			return bind(in, f+" "+argv())
+		}
+		return let(in, f+" "+argv())
 	}
 	if callee == t.fn {
 		bail("recursion")
@@ -945,7 +981,10 @@ func (t *ftr) call(in *ssa.Call, let, bind func(ssa.Value, string) wrapper) wrap
 
 // ----- control flow
 
-func (t *ftr) checkAcyclic() {
+// loops: only reducible ones (every retreating edge goes to a block that dominates its source); the targets of
+// the back edges are the loop headers
+func (t *ftr) findLoops() {
+	t.header = map[*ssa.BasicBlock]bool{}
 	state := map[*ssa.BasicBlock]int{}
 	var dfs func(b *ssa.BasicBlock)
 	dfs = func(b *ssa.BasicBlock) {
@@ -953,7 +992,10 @@ func (t *ftr) checkAcyclic() {
 		for _, s := range b.Succs {
 			switch state[s] {
 			case 1:
-				bail("the control flow graph has a back edge (block %d -> block %d): loops are not translated", b.Index, s.Index)
+				if !s.Dominates(b) {
+					bail("irreducible control flow (block %d -> block %d)", b.Index, s.Index)
+				}
+				t.header[s] = true
 			case 0:
 				dfs(s)
 			}
@@ -961,6 +1003,17 @@ func (t *ftr) checkAcyclic() {
 		state[b] = 2
 	}
 	dfs(t.fn.Blocks[0])
+	if t.header[t.fn.Blocks[0]] {
+		bail("the entry block is a loop header")
+	}
+	if len(t.header) > 0 {
+		if noLoops {
+			for h := range t.header {
+				bail("the control flow graph has a back edge (into block %d): loops are not translated (-noloops)", h.Index)
+			}
+		}
+		t.fuel = true
+	}
 }
 
 func phis(b *ssa.BasicBlock) []*ssa.Phi {
@@ -1004,6 +1057,13 @@ func (t *ftr) edge(b *ssa.BasicBlock, si int, cur string) node {
 	pi := predIndex(b, si)
 	if isJoin(s) {
 		var args []string
+		if t.header[s] {
+			if s.Dominates(b) {
+				args = append(args, fmt.Sprintf("f%d", s.Index)) // back edge: one unit of fuel less
+			} else {
+				args = append(args, "fuel") // entry into the loop
+			}
+		}
 		if t.rec != nil {
 			args = append(args, cur)
 		}
@@ -1058,6 +1118,7 @@ func (t *ftr) block(b *ssa.BasicBlock, cur string) node {
 		name   string
 		params []string
 		body   node
+		fix    string
 	}
 	var kds []kd
 	for _, j := range joins {
@@ -1072,7 +1133,14 @@ func (t *ftr) block(b *ssa.BasicBlock, cur string) node {
 			t.name[p] = p.Name()
 			params = append(params, fmt.Sprintf("(%s : %s)", p.Name(), coqType(p.Type())))
 		}
-		kds = append(kds, kd{kname(j), params, t.block(j, jc)})
+		fix := ""
+		if t.header[j] {
+			if t.rec != nil {
+				bail("a loop in a method on a state record")
+			}
+			fix = fmt.Sprintf("fuel%d", j.Index)
+		}
+		kds = append(kds, kd{kname(j), params, t.block(j, jc), fix})
 	}
 	var n node
 	switch term := term.(type) {
@@ -1106,7 +1174,7 @@ func (t *ftr) block(b *ssa.BasicBlock, cur string) node {
 		bail("block %d has no terminator that is translated", b.Index)
 	}
 	for i := len(kds) - 1; i >= 0; i-- {
-		n = &nKDef{kds[i].name, kds[i].params, kds[i].body, n}
+		n = &nKDef{kds[i].name, kds[i].params, kds[i].body, n, kds[i].fix, t.rt}
 	}
 	for i := len(ws) - 1; i >= 0; i-- {
 		n = ws[i](n)
@@ -1229,7 +1297,7 @@ func translate(fn *ssa.Function, name string, done map[string]*result, byName ma
 	t := &ftr{fn: fn, done: done, byName: byName, name: map[ssa.Value]string{}, ignored: map[ssa.Value]bool{},
 		field: map[ssa.Value]string{}, calls: map[string]bool{}, cell: map[*ssa.Alloc]string{},
 		fresh: map[ssa.Value]*freshRec{}, owner: map[ssa.Value]ssa.Value{}}
-	t.checkAcyclic()
+	t.findLoops()
 	if fn.Signature.Variadic() {
 		bail("variadic function")
 	}
@@ -1265,10 +1333,14 @@ func translate(fn *ssa.Function, name string, done map[string]*result, byName ma
 		}
 		binders = append(binders, fmt.Sprintf("(%s : %s)", nm, coqType(p.Type())))
 	}
+	t.rt = "option " + paren(resultType(fn))
 	body := t.block(fn.Blocks[0], cur)
 	fixRets(body, t.mutates)
 	partial := isPartial(body)
 	rt := resultType(fn)
+	if t.fuel {
+		binders = append([]string{"(fuel : nat)"}, binders...)
+	}
 	if t.mutates {
 		rt = "(" + t.rec.coqType + " * " + rt + ")"
 	}
@@ -1279,7 +1351,7 @@ func translate(fn *ssa.Function, name string, done map[string]*result, byName ma
 	fmt.Fprintf(&b, "Definition %s %s : %s :=\n", res.Coq, strings.Join(binders, " "), rt)
 	pr(&b, body, "  ", partial)
 	def := strings.TrimRight(b.String(), "\n") + "."
-	res.Status, res.Def, res.Partial, res.Mutates = "translated", def, partial, t.mutates
+	res.Status, res.Def, res.Partial, res.Mutates, res.Fuel = "translated", def, partial, t.mutates, t.fuel
 	for c := range t.calls {
 		res.Calls = append(res.Calls, c)
 	}
@@ -1325,6 +1397,7 @@ func run(args []string) int {
 	mod := flag.String("mod", "", "module path (tests)")
 	pk := flag.String("pkgs", "", "packages (tests)")
 	tg := flag.String("targets", "", "targets (tests)")
+	flag.BoolVar(&noLoops, "noloops", false, "refuse every function whose control flow graph has a back edge")
 	all := flag.Bool("all", false, "try every function of the loaded packages (exploration: which functions are translatable?)")
 	if err := flag.Parse(args); err != nil {
 		return 2
